@@ -24,6 +24,25 @@ pub fn content_hash(data: &[u8]) -> String {
     blake3::hash(data).to_hex().to_string()
 }
 
+/// Trailer line carrying the hash of everything before it. It is a TOML
+/// comment, so the manifest stays a plain TOML file.
+const MANIFEST_CHECKSUM: &str = "# checksum = ";
+
+/// Appends the checksum trailer to a serialized manifest.
+fn seal_manifest(body: &str) -> String {
+    format!("{body}{MANIFEST_CHECKSUM}{}\n", content_hash(body.as_bytes()))
+}
+
+/// Returns the manifest body if its checksum trailer is present and matches.
+/// A manifest that still parses as TOML after a truncation or a flipped byte
+/// would otherwise be trusted, e.g. with a dependents list that lost an entry.
+fn unseal_manifest(text: &str) -> Option<&str> {
+    let (body, sum) = text.strip_suffix('\n')?.rsplit_once(MANIFEST_CHECKSUM)?;
+    (body.is_empty() || body.ends_with('\n'))
+        .then_some(body)
+        .filter(|x| content_hash(x.as_bytes()) == sum)
+}
+
 /// Builds a global key from all non-per-file invalidation inputs.
 pub fn global_key(parts: &[&str]) -> String {
     let mut hasher = blake3::Hasher::new();
@@ -115,9 +134,11 @@ impl Store {
         #[cfg(target_family = "wasm")]
         let _ = blocking;
 
+        // A manifest whose checksum trailer is missing or does not match was
+        // truncated or damaged on disk; it is discarded as a whole.
         let parsed = fs::read_to_string(root.join(MANIFEST))
             .ok()
-            .and_then(|x| toml::from_str::<Manifest>(&x).ok());
+            .and_then(|x| toml::from_str::<Manifest>(unseal_manifest(&x)?).ok());
 
         let mut manifest = parsed.clone().unwrap_or_default();
         let mut on_disk_current = parsed.is_some()
@@ -288,6 +309,7 @@ impl Store {
                 return;
             }
         };
+        let manifest = seal_manifest(&manifest);
         if let Err(x) = veryl_path::atomic_write(self.root.join(MANIFEST), manifest.as_bytes()) {
             log::debug!("cache: failed to write manifest: {x}");
             return;
